@@ -29,6 +29,11 @@ def main(tier="quick"):
     import c12
     for cfgname, (alpha, ql, tl, qa, ta) in c12.ALPHABETS.items():
         step(f"LexerRespell/{cfgname}", lambda c=cfgname, a=((ql, qa) if tier == "quick" else (tl, ta)): c12.cached(c, a[0], a[1]))
+    for kind in ("c", "h"):
+        for wv in (False, True):
+            step(f"RespellProg/{kind}/{wv}", lambda k=kind, w=wv: c12.prog_corpus(tier, k, w))
+    import enginemc
+    step("EngineMC", lambda: enginemc.cached(tier))
     import c11
     step("Literals", lambda: c11.cached(1 if tier == "quick" else 2))
     import driverprops
